@@ -222,4 +222,198 @@ example : dispatchChord (run demo) 3 7 = none := by decide         -- nothing at
 example : dispatchTunnel (run demo) 1 = some 12 ∧ dispatchTunnel (run demo) 2 = none := by decide
 example : lastVirt demo 1 8 = none ∧ lastPhys demo 1 = some 10 := by decide
 
+/-! ### Concurrent registrations
+A set of registrations issued concurrently takes effect as `register` in SOME order (each table update is one
+atomic map operation, see Model).  When their table slots (`Op.key`) are pairwise distinct — different virtual
+nodes attaching at the same time — the order is irrelevant and EVERY one of them is effective. -/
+
+def Op.handler : Op → Nat
+  | .handleChord _ _ h => h
+  | .handleTunnel _ h => h
+
+/-- most recent registration for a table slot -/
+def lastKey : List Op → Key → Option Nat
+  | [], _ => none
+  | op :: rest, key =>
+    match lastKey rest key with
+    | some h => some h
+    | none => if op.key = key then some op.handler else none
+
+theorem lastVirt_eq_lastKey (ops : List Op) (k i : Nat) : lastVirt ops k i = lastKey ops (.virt k i) := by
+  induction ops with
+  | nil => rfl
+  | cons op rest ih =>
+    simp only [lastVirt, lastKey, ih]
+    cases lastKey rest (.virt k i) with
+    | some h => rfl
+    | none =>
+      cases op with
+      | handleTunnel k' h => simp [Op.key]
+      | handleChord k' t h => cases t <;> simp [Op.key, Op.handler]
+
+theorem lastPhys_eq_lastKey (ops : List Op) (k : Nat) : lastPhys ops k = lastKey ops (.phys k) := by
+  induction ops with
+  | nil => rfl
+  | cons op rest ih =>
+    simp only [lastPhys, lastKey, ih]
+    cases lastKey rest (.phys k) with
+    | some h => rfl
+    | none =>
+      cases op with
+      | handleTunnel k' h => simp [Op.key]
+      | handleChord k' t h => cases t <;> simp [Op.key, Op.handler]
+
+theorem lastTun_eq_lastKey (ops : List Op) (k : Nat) : lastTun ops k = lastKey ops (.tun k) := by
+  induction ops with
+  | nil => rfl
+  | cons op rest ih =>
+    simp only [lastTun, lastKey, ih]
+    cases lastKey rest (.tun k) with
+    | some h => rfl
+    | none =>
+      cases op with
+      | handleTunnel k' h => simp [Op.key, Op.handler]
+      | handleChord k' t h => cases t <;> simp [Op.key]
+
+theorem lastKey_append (a b : List Op) (key : Key) :
+    lastKey (a ++ b) key = (match lastKey b key with | some h => some h | none => lastKey a key) := by
+  induction a with
+  | nil => simp only [List.nil_append, lastKey]; cases lastKey b key <;> rfl
+  | cons op rest ih =>
+    simp only [List.cons_append, lastKey, ih]
+    cases lastKey b key <;> rfl
+
+theorem lastKey_some_mem (ops : List Op) (key : Key) (h : Nat) (hl : lastKey ops key = some h) :
+    ∃ op, op ∈ ops ∧ op.key = key ∧ op.handler = h := by
+  induction ops with
+  | nil => simp [lastKey] at hl
+  | cons op rest ih =>
+    simp only [lastKey] at hl
+    cases hr : lastKey rest key with
+    | some h' =>
+      rw [hr] at hl
+      obtain ⟨o, hm, hk, hh⟩ := ih (by rw [hr]; exact hl)
+      exact ⟨o, List.mem_cons_of_mem _ hm, hk, hh⟩
+    | none =>
+      rw [hr] at hl
+      by_cases c : op.key = key
+      · simp [c] at hl; exact ⟨op, List.mem_cons_self .., c, hl⟩
+      · simp [c] at hl
+
+theorem lastKey_isSome_of_mem (ops : List Op) (op : Op) (hm : op ∈ ops) : ∃ h, lastKey ops op.key = some h := by
+  induction ops with
+  | nil => simp at hm
+  | cons o rest ih =>
+    simp only [lastKey]
+    cases hr : lastKey rest op.key with
+    | some h' => exact ⟨h', rfl⟩
+    | none =>
+      rcases List.mem_cons.mp hm with e | hm'
+      · subst e; exact ⟨op.handler, by simp⟩
+      · obtain ⟨h', e⟩ := ih hm'; rw [hr] at e; cases e
+
+/-- slots are written at most once in the list -/
+def KeyInj (ops : List Op) : Prop := ∀ o, o ∈ ops → ∀ o', o' ∈ ops → o.key = o'.key → o = o'
+
+theorem distinctKeys_inj (ops : List Op) (hd : distinctKeys ops = true) : KeyInj ops := by
+  induction ops with
+  | nil => intro o ho; simp at ho
+  | cons op rest ih =>
+    simp only [distinctKeys, Bool.and_eq_true, List.all_eq_true, decide_eq_true_eq] at hd
+    obtain ⟨hne, hr⟩ := hd
+    intro o ho o' ho' hk
+    rcases List.mem_cons.mp ho with e | hm <;> rcases List.mem_cons.mp ho' with e' | hm'
+    · rw [e, e']
+    · subst e; exact absurd hk.symm (hne o' hm')
+    · subst e'; exact absurd hk (hne o hm)
+    · exact ih hr o hm o' hm' hk
+
+theorem lastKey_of_inj (ops : List Op) (hi : KeyInj ops) (op : Op) (hm : op ∈ ops) :
+    lastKey ops op.key = some op.handler := by
+  obtain ⟨h, hl⟩ := lastKey_isSome_of_mem ops op hm
+  obtain ⟨o, hom, hk, hh⟩ := lastKey_some_mem ops op.key h hl
+  have := hi o hom op hm hk
+  subst this; rw [hl, hh]
+
+theorem lastKey_perm (a b : List Op) (hp : List.Perm a b) (hi : KeyInj b) (key : Key) :
+    lastKey a key = lastKey b key := by
+  have hia : KeyInj a := fun o ho o' ho' hk => hi o (hp.mem_iff.mp ho) o' (hp.mem_iff.mp ho') hk
+  apply Option.ext; intro h
+  constructor
+  · intro hl
+    obtain ⟨o, hom, hk, hh⟩ := lastKey_some_mem a key h hl
+    rw [← hk, ← hh]; exact lastKey_of_inj b hi o (hp.mem_iff.mp hom)
+  · intro hl
+    obtain ⟨o, hom, hk, hh⟩ := lastKey_some_mem b key h hl
+    rw [← hk, ← hh]; exact lastKey_of_inj a hia o (hp.mem_iff.mpr hom)
+
+theorem dispatchChord_lastKey (ops : List Op) (kind id : Nat) :
+    dispatchChord (run ops) kind id =
+      (match lastKey ops (.virt kind id) with | some h => some h | none => lastKey ops (.phys kind)) := by
+  rw [dispatchChord_spec]; unfold specChord; rw [lastVirt_eq_lastKey, lastPhys_eq_lastKey]
+  cases lastKey ops (.virt kind id) <;> rfl
+
+theorem dispatchTunnel_lastKey (ops : List Op) (kind : Nat) :
+    dispatchTunnel (run ops) kind = lastKey ops (.tun kind) := by
+  rw [dispatchTunnel_spec]; unfold specTunnel; rw [lastTun_eq_lastKey]
+
+/-- **C42, concurrent registration — the order of taking effect is irrelevant**: after earlier registrations
+`pre`, a batch of concurrent registrations writing pairwise distinct table slots, and later registrations `post`,
+every incoming stream is dispatched the same way whichever order `batch'` the batch took effect in. -/
+theorem concurrent_order_irrelevant (pre batch batch' post : List Op)
+    (hd : distinctKeys batch = true) (hp : List.Perm batch' batch) :
+    (∀ kind id, dispatchChord (run (pre ++ batch' ++ post)) kind id
+              = dispatchChord (run (pre ++ batch ++ post)) kind id) ∧
+    (∀ kind, dispatchTunnel (run (pre ++ batch' ++ post)) kind
+           = dispatchTunnel (run (pre ++ batch ++ post)) kind) := by
+  have hi := distinctKeys_inj batch hd
+  have key : ∀ k, lastKey (pre ++ batch' ++ post) k = lastKey (pre ++ batch ++ post) k := by
+    intro k; simp only [lastKey_append, lastKey_perm batch' batch hp hi k]
+  constructor
+  · intro kind id; simp only [dispatchChord_lastKey, key]
+  · intro kind; simp only [dispatchTunnel_lastKey, key]
+
+/-- **C42, concurrent registration — every registration is effective**: the handler a virtual node registered
+concurrently with other nodes' registrations (distinct slots) gets the streams for its (type, target) … -/
+theorem concurrent_virtual_effective (pre batch batch' : List Op) (kind id h : Nat)
+    (hd : distinctKeys batch = true) (hp : List.Perm batch' batch)
+    (hm : Op.handleChord kind (some id) h ∈ batch) :
+    dispatchChord (run (pre ++ batch')) kind id = some h := by
+  have hi := distinctKeys_inj batch hd
+  have := lastKey_of_inj batch hi _ hm
+  rw [dispatchChord_lastKey, lastKey_append, lastKey_perm batch' batch hp hi]
+  simp only [Op.key, Op.handler] at this
+  rw [this]
+
+/-- … a concurrently registered node-wide handler gets the streams of its type whose target has no handler … -/
+theorem concurrent_physical_effective (pre batch batch' : List Op) (kind id h : Nat)
+    (hd : distinctKeys batch = true) (hp : List.Perm batch' batch)
+    (hm : Op.handleChord kind none h ∈ batch) (hv : lastVirt (pre ++ batch') kind id = none) :
+    dispatchChord (run (pre ++ batch')) kind id = some h := by
+  have hi := distinctKeys_inj batch hd
+  have := lastKey_of_inj batch hi _ hm
+  rw [falls_back_to_physical _ _ _ hv, lastPhys_eq_lastKey, lastKey_append, lastKey_perm batch' batch hp hi]
+  simp only [Op.key, Op.handler] at this
+  rw [this]
+
+/-- … and a concurrently registered client-stream handler gets the client streams of its type. -/
+theorem concurrent_tunnel_effective (pre batch batch' : List Op) (kind h : Nat)
+    (hd : distinctKeys batch = true) (hp : List.Perm batch' batch)
+    (hm : Op.handleTunnel kind h ∈ batch) :
+    dispatchTunnel (run (pre ++ batch')) kind = some h := by
+  have hi := distinctKeys_inj batch hd
+  have := lastKey_of_inj batch hi _ hm
+  rw [dispatchTunnel_lastKey, lastKey_append, lastKey_perm batch' batch hp hi]
+  simp only [Op.key, Op.handler] at this
+  rw [this]
+
+/-! non-vacuity: eight virtual nodes + a node-wide and a client handler attach concurrently -/
+def demoBatch : List Op := [.handleChord 1 (some 1000) 1, .handleChord 1 (some 1001) 2, .handleChord 2 (some 1000) 3,
+  .handleChord 1 none 4, .handleTunnel 1 5]
+example : distinctKeys demoBatch = true := by decide
+example : distinctKeys (demoBatch ++ [.handleChord 1 (some 1001) 9]) = false := by decide
+example : dispatchChord (run (demo ++ demoBatch.reverse)) 1 1001 = some 2
+    ∧ dispatchChord (run (demo ++ demoBatch.reverse)) 1 5 = some 4
+    ∧ dispatchTunnel (run (demo ++ demoBatch.reverse)) 1 = some 5 := by decide
+
 end Specter.C42
